@@ -7,8 +7,9 @@ import Thanos.Generated.Facts
 
   Model: Model/Shipper.lean (`Shipper.Sync` over the bucket model of C28).  For every set of
   local blocks (any number, levels, empty ones, any segment files), both settings of
-  uploadCompacted / allowOutOfOrderUploads, every crash budget of every Sync and every history
-  of Syncs and losses of the shipper file:
+  uploadCompacted / allowOutOfOrderUploads, every fault of every Sync — a crash budget (after k
+  mutating bucket calls every call fails) and/or a transient failure (exactly the j-th bucket call
+  fails, the others pass) — and every history of Syncs and losses of the shipper file:
 
    * `C35_record_sound`  the invariant "bucket consistent (C28) ∧ every id in thanos.shipper.json
                          is visible — hence complete — in the bucket" survives every Sync, crashed
@@ -30,15 +31,14 @@ structure LoopInv (w : Nat → Block) (hasUploaded : List Nat) (a : Acc) : Prop 
   has : ∀ id ∈ hasUploaded, Visible a.bkt id
 
 theorem doUpload_inv {locals : List LBlock} (hl : LocalsOK locals) {hasU : List Nat} (cfg : Cfg)
-    {b : LBlock} (hb : b ∈ locals) {a : Acc} (chk : Option (List (Int × Int)))
-    (h : LoopInv (worldOf locals) hasU a) : LoopInv (worldOf locals) hasU (doUpload cfg b a chk).acc := by
+    {b : LBlock} (hb : b ∈ locals) {a : Acc} (chk : Option (List (Int × Int))) (f : Fault)
+    (h : LoopInv (worldOf locals) hasU a) : LoopInv (worldOf locals) hasU (doUpload cfg b a chk f).acc := by
   have hw := wf_worldOf hl
-  have hgood : Good (worldOf locals) (exec a.budget (uploadScript codeUploadOrder b.id b.files) a.bkt).bkt := by
-    have := C28_upload hw metaLast_code a.bkt h.good b.id a.budget
+  have hgood : Good (worldOf locals) (uploadF f b.id b.files a.bkt).1.bkt := by
+    have := good_uploadF hw f b.id a.bkt h.good
     rwa [worldOf_mem hl.1 hb] at this
-  have hkeep : ∀ id, Visible a.bkt id →
-      Visible (exec a.budget (uploadScript codeUploadOrder b.id b.files) a.bkt).bkt id :=
-    fun id hv => upload_keeps _ _ _ _ _ _ hv
+  have hkeep : ∀ id, Visible a.bkt id → Visible (uploadF f b.id b.files a.bkt).1.bkt id :=
+    fun id hv => upload_keeps _ _ _ _ _ hv
   unfold doUpload
   simp only
   split
@@ -70,8 +70,9 @@ theorem step_inv {locals : List LBlock} (hl : LocalsOK locals) {hasU : List Nat}
     · split
       · exact h
       · split
-        · exact h
-        · split
+        · exact ⟨h.good, h.up, h.has⟩
+        · simp only
+          split
           · rename_i hex
             refine ⟨h.good, ?_, h.has⟩
             intro id hid
@@ -80,8 +81,8 @@ theorem step_inv {locals : List LBlock} (hl : LocalsOK locals) {hasU : List Nat}
             · exact h.up id hid
             · exact hex
           · split
-            · exact h
-            · exact doUpload_inv hl cfg hb _ h
+            · exact ⟨h.good, h.up, h.has⟩
+            · exact doUpload_inv hl cfg hb _ _ ⟨h.good, h.up, h.has⟩
 
 theorem loop_inv {locals : List LBlock} (hl : LocalsOK locals) {hasU : List Nat} (cfg : Cfg) :
     ∀ (bs : List LBlock) (a : Acc), (∀ b ∈ bs, b ∈ locals) → LoopInv (worldOf locals) hasU a →
@@ -102,7 +103,7 @@ def Sound (locals : List LBlock) (st : State) : Prop :=
   Good (worldOf locals) st.bkt ∧ ∀ id ∈ st.file.getD [], Visible st.bkt id
 
 /-- **C35 (record soundness)**: one Sync, cut anywhere, keeps the invariant. -/
-theorem C35_record_sound {locals : List LBlock} (hl : LocalsOK locals) (cfg : Cfg) (k : Option Nat)
+theorem C35_record_sound {locals : List LBlock} (hl : LocalsOK locals) (cfg : Cfg) (k : Fault)
     (st : State) (h : Sound locals st) : Sound locals (sync cfg locals k st).st := by
   have hinv := loop_inv hl (hasU := st.file.getD []) cfg locals ⟨k, st.bkt, [], none, 0, []⟩ (fun _ hb => hb)
     ⟨h.1, by intro id hid; simp at hid, h.2⟩
@@ -116,7 +117,8 @@ theorem C35_record_sound {locals : List LBlock} (hl : LocalsOK locals) (cfg : Cf
     rw [hloop] at hinv
     exact ⟨hinv.good, by simpa [Step.acc] using hinv.up⟩
 
-/-- histories: Syncs with any crash budget, and losses of the shipper file, from scratch -/
+/-- histories: Syncs under any fault (crash budget / transient failure), and losses of the shipper
+    file, from scratch -/
 inductive History (cfg : Cfg) (locals : List LBlock) : State → Prop where
   | init : History cfg locals ⟨[], none⟩
   | sync (st k) : History cfg locals st → History cfg locals (sync cfg locals k st).st
@@ -138,8 +140,8 @@ theorem C35_history {locals : List LBlock} (hl : LocalsOK locals) {cfg : Cfg} {s
 
 -- ---------------------------------------------------------------- completeness of an ok Sync
 
-theorem doUpload_acct (cfg : Cfg) (b : LBlock) (a : Acc) (chk : Option (List (Int × Int))) (a' : Acc)
-    (h : doUpload cfg b a chk = .cont a') :
+theorem doUpload_acct (cfg : Cfg) (b : LBlock) (a : Acc) (chk : Option (List (Int × Int))) (f : Fault) (a' : Acc)
+    (h : doUpload cfg b a chk f = .cont a') :
     a.uploadErrs ≤ a'.uploadErrs ∧ (∀ id ∈ a.uploaded, id ∈ a'.uploaded) ∧
       (a'.uploadErrs = a.uploadErrs → b.id ∈ a'.uploaded) := by
   unfold doUpload at h
@@ -174,12 +176,13 @@ theorem step_acct (cfg : Cfg) (locals : List LBlock) (hasU : List Nat) (b : LBlo
         · rw [hlv.2] at h1; cases h1
       · split at h
         · cases h
-        · split at h
+        · simp only at h
+          split at h
           · cases h
             exact ⟨Nat.le_refl _, fun id hid => List.mem_append_left _ hid, fun _ _ => by simp⟩
           · split at h
             · cases h
-            · obtain ⟨h1, h2, h3⟩ := doUpload_acct cfg b a _ a' h
+            · obtain ⟨h1, h2, h3⟩ := doUpload_acct cfg b _ _ _ a' h
               exact ⟨h1, h2, fun e _ => h3 e⟩
 
 theorem loop_acct (cfg : Cfg) (locals : List LBlock) (hasU : List Nat) : ∀ (bs : List LBlock) (a a' : Acc),
@@ -208,7 +211,7 @@ theorem loop_acct (cfg : Cfg) (locals : List LBlock) (hasU : List Nat) : ∀ (bs
 
 /-- **C35 (completeness)**: after a Sync that returned nil, every eligible local block is
     recorded in the shipper file and is complete in the bucket — whatever crashed before. -/
-theorem C35_complete {locals : List LBlock} (hl : LocalsOK locals) (cfg : Cfg) (k : Option Nat)
+theorem C35_complete {locals : List LBlock} (hl : LocalsOK locals) (cfg : Cfg) (k : Fault)
     (st : State) (h : Sound locals st) (hok : (sync cfg locals k st).ok = true)
     (b : LBlock) (hb : b ∈ locals) (he : eligible cfg b = true) :
     b.id ∈ (sync cfg locals k st).st.file.getD [] ∧ Complete (sync cfg locals k st).st.bkt b.id := by
@@ -226,25 +229,17 @@ theorem C35_complete {locals : List LBlock} (hl : LocalsOK locals) (cfg : Cfg) (
 
 -- ---------------------------------------------------------------- progress
 
-/-- the Sync runs without a crash and every overlap check it performs passes -/
-def ChecksPass (cfg : Cfg) (locals : List LBlock) (hasU : List Nat) : List LBlock → Acc → Prop
-  | [], _ => True
-  | b :: rest, a =>
-    match stepBlock cfg locals hasU b a with
-    | .abort _ => False
-    | .cont a' => ChecksPass cfg locals hasU rest a'
-
-theorem doUpload_nocrash (cfg : Cfg) (b : LBlock) (a : Acc) (chk : Option (List (Int × Int)))
-    (hb : a.budget = none) :
-    ∃ a', doUpload cfg b a chk = .cont a' ∧ a'.budget = none ∧ a'.uploadErrs = a.uploadErrs := by
+theorem doUpload_nofault (cfg : Cfg) (b : LBlock) (a : Acc) (chk : Option (List (Int × Int))) :
+    ∃ a', doUpload cfg b a chk Fault.none = .cont a' ∧ a'.fault = Fault.none ∧ a'.uploadErrs = a.uploadErrs ∧
+      a'.bkt = (uploadF Fault.none b.id b.files a.bkt).1.bkt ∧ a'.checker = chk := by
   unfold doUpload
-  simp only [hb, (exec_none _ _).2.2, if_true]
-  exact ⟨_, rfl, by simp [spend], rfl⟩
+  simp only [(uploadF_none _ _ _).1, (uploadF_none _ _ _).2, if_true]
+  exact ⟨_, rfl, rfl, rfl, rfl, rfl⟩
 
-/-- without the overlap check a crash-free step never aborts nor counts an upload error -/
-theorem step_nocrash (cfg : Cfg) (hcfg : cfg.allowOOO = true ∨ cfg.uploadCompacted = false)
-    (locals : List LBlock) (hasU : List Nat) (b : LBlock) (a : Acc) (hb : a.budget = none) :
-    ∃ a', stepBlock cfg locals hasU b a = .cont a' ∧ a'.budget = none ∧ a'.uploadErrs = a.uploadErrs := by
+/-- without the overlap check a fault-free step never aborts nor counts an upload error -/
+theorem step_nofault (cfg : Cfg) (hcfg : cfg.allowOOO = true ∨ cfg.uploadCompacted = false)
+    (locals : List LBlock) (hasU : List Nat) (b : LBlock) (a : Acc) (hb : a.fault = Fault.none) :
+    ∃ a', stepBlock cfg locals hasU b a = .cont a' ∧ a'.fault = Fault.none ∧ a'.uploadErrs = a.uploadErrs := by
   unfold stepBlock
   split
   · exact ⟨_, rfl, hb, rfl⟩
@@ -254,10 +249,11 @@ theorem step_nocrash (cfg : Cfg) (hcfg : cfg.allowOOO = true ∨ cfg.uploadCompa
       · exact ⟨_, rfl, hb, rfl⟩
       · rename_i hlv
         split
-        · rename_i hc; simp [hb, crashed] at hc
-        · split
-          · exact ⟨_, rfl, hb, rfl⟩
-          · have hchk : overlapCheck cfg locals b a = some a.checker := by
+        · rename_i hc; simp [hb, fault_none_hit] at hc
+        · simp only [hb, fault_none_pass]
+          split
+          · exact ⟨_, rfl, rfl, rfl⟩
+          · have hchk : overlapCheck cfg locals b { a with fault := Fault.none } = some (a.checker, Fault.none) := by
               unfold overlapCheck
               split
               · rename_i hx
@@ -266,23 +262,24 @@ theorem step_nocrash (cfg : Cfg) (hcfg : cfg.allowOOO = true ∨ cfg.uploadCompa
                 · exact absurd ⟨hx.1, h1⟩ hlv
               · rfl
             simp only [hchk]
-            exact doUpload_nocrash cfg b a _ hb
+            obtain ⟨a', h1, h2, h3, _, _⟩ := doUpload_nofault cfg b { a with fault := Fault.none } a.checker
+            exact ⟨a', h1, h2, h3⟩
 
-theorem loop_nocrash (cfg : Cfg) (hcfg : cfg.allowOOO = true ∨ cfg.uploadCompacted = false)
-    (locals : List LBlock) (hasU : List Nat) : ∀ (bs : List LBlock) (a : Acc), a.budget = none →
+theorem loop_nofault (cfg : Cfg) (hcfg : cfg.allowOOO = true ∨ cfg.uploadCompacted = false)
+    (locals : List LBlock) (hasU : List Nat) : ∀ (bs : List LBlock) (a : Acc), a.fault = Fault.none →
     ∃ a', loop cfg locals hasU bs a = .cont a' ∧ a'.uploadErrs = a.uploadErrs
   | [], a, _ => ⟨a, rfl, rfl⟩
   | b :: rest, a, hb => by
-    obtain ⟨a1, h1, h2, h3⟩ := step_nocrash cfg hcfg locals hasU b a hb
-    obtain ⟨a2, h4, h5⟩ := loop_nocrash cfg hcfg locals hasU rest a1 h2
+    obtain ⟨a1, h1, h2, h3⟩ := step_nofault cfg hcfg locals hasU b a hb
+    obtain ⟨a2, h4, h5⟩ := loop_nofault cfg hcfg locals hasU rest a1 h2
     exact ⟨a2, by simp [loop, h1, h4], by omega⟩
 
 /-- **C35 (progress)**: with out-of-order uploads allowed, or without compacted uploads (the
-    configurations that never run the overlap check), a crash-free Sync returns nil from ANY
-    state — so after any crash history it establishes `C35_complete`. -/
+    configurations that never run the overlap check), a fault-free Sync returns nil from ANY
+    state — so after any history of crashes and transient failures it establishes `C35_complete`. -/
 theorem C35_progress (cfg : Cfg) (hcfg : cfg.allowOOO = true ∨ cfg.uploadCompacted = false)
-    (locals : List LBlock) (st : State) : (sync cfg locals none st).ok = true := by
-  obtain ⟨a, h1, h2⟩ := loop_nocrash cfg hcfg locals (st.file.getD []) locals ⟨none, st.bkt, [], none, 0, []⟩ rfl
+    (locals : List LBlock) (st : State) : (sync cfg locals Fault.none st).ok = true := by
+  obtain ⟨a, h1, h2⟩ := loop_nofault cfg hcfg locals (st.file.getD []) locals ⟨Fault.none, st.bkt, [], none, 0, []⟩ rfl
   unfold sync
   simp only [h1]
   simpa using h2
@@ -290,9 +287,9 @@ theorem C35_progress (cfg : Cfg) (hcfg : cfg.allowOOO = true ∨ cfg.uploadCompa
 -- ---------------------------------------------------------------- progress with the overlap check
 
 theorem doUpload_keys {locals : List LBlock} (cfg : Cfg) {b : LBlock} (hb : b ∈ locals) (a : Acc)
-    (chk : Option (List (Int × Int))) (h : KeysLocal locals a.bkt) :
-    KeysLocal locals (doUpload cfg b a chk).acc.bkt := by
-  have := keysLocal_upload hb a.budget a.bkt h
+    (chk : Option (List (Int × Int))) (f : Fault) (h : KeysLocal locals a.bkt) :
+    KeysLocal locals (doUpload cfg b a chk f).acc.bkt := by
+  have := keysLocal_upload hb f a.bkt h
   unfold doUpload
   simp only
   split
@@ -310,11 +307,12 @@ theorem step_keys {locals : List LBlock} (cfg : Cfg) (hasU : List Nat) {b : LBlo
       · exact h
       · split
         · exact h
-        · split
+        · simp only
+          split
           · exact h
           · split
             · exact h
-            · exact doUpload_keys cfg hb a _ h
+            · exact doUpload_keys cfg hb _ _ _ h
 
 theorem loop_keys {locals : List LBlock} (cfg : Cfg) (hasU : List Nat) : ∀ (bs : List LBlock) (a : Acc),
     (∀ b ∈ bs, b ∈ locals) → KeysLocal locals a.bkt → KeysLocal locals (loop cfg locals hasU bs a).acc.bkt
@@ -328,7 +326,7 @@ theorem loop_keys {locals : List LBlock} (cfg : Cfg) (hasU : List Nat) : ∀ (bs
       simp only
       exact loop_keys cfg hasU rest a' (fun b hb => hbs b (List.mem_cons_of_mem _ hb)) (by simpa [hstep, Step.acc] using hs)
 
-theorem sync_keys {locals : List LBlock} (cfg : Cfg) (k : Option Nat) (st : State)
+theorem sync_keys {locals : List LBlock} (cfg : Cfg) (k : Fault) (st : State)
     (h : KeysLocal locals st.bkt) : KeysLocal locals (sync cfg locals k st).st.bkt := by
   have := loop_keys cfg (st.file.getD []) locals ⟨k, st.bkt, [], none, 0, []⟩ (fun _ hb => hb) h
   unfold sync
@@ -344,16 +342,16 @@ theorem history_keys {locals : List LBlock} {cfg : Cfg} {st : State} (h : Histor
   | sync st k _ ih => exact sync_keys cfg k st ih
   | lostFile st _ ih => exact ih
 
-/-- the invariant of a crash-free Sync over non-overlapping local blocks -/
+/-- the invariant of a fault-free Sync over non-overlapping local blocks -/
 structure ProgInv (locals : List LBlock) (a : Acc) : Prop where
-  budget : a.budget = none
+  nofault : a.fault = Fault.none
   errs : a.uploadErrs = 0
   keys : KeysLocal locals a.bkt
   chk : ∀ ms, a.checker = some ms → LocalRanges locals ms
 
 theorem overlapCheck_passes {locals : List LBlock} (hno : NoOverlap locals) (cfg : Cfg) {b : LBlock}
     (hb : b ∈ locals) {a : Acc} (h : ProgInv locals a) :
-    ∃ c', overlapCheck cfg locals b a = some c' ∧ ∀ ms, c' = some ms → LocalRanges locals ms := by
+    ∃ c', overlapCheck cfg locals b a = some (c', Fault.none) ∧ ∀ ms, c' = some ms → LocalRanges locals ms := by
   have cons : ∀ ms, LocalRanges locals ms → overlapping ((b.minT, b.maxT) :: ms) = false := by
     intro ms hms
     apply not_overlapping_of_local hno
@@ -366,36 +364,39 @@ theorem overlapCheck_passes {locals : List LBlock} (hno : NoOverlap locals) (cfg
   · cases hc : a.checker with
     | some ms =>
       have hms := h.chk ms hc
-      simp only [cons ms hms]
+      simp only [cons ms hms, h.nofault]
       exact ⟨some ms, by simp, fun ms' e => by cases e; exact hms⟩
     | none =>
       obtain ⟨rs, hrs, hl⟩ := checkerSync_some h.keys
       have : checkerSync locals a.bkt = some rs := by simpa [checkerSync, codeSkipPartial] using hrs
-      simp only [this, cons rs hl]
+      have hp : a.fault.passReads (1 + (dirsOf a.bkt).length) = some Fault.none := by
+        rw [h.nofault]; rfl
+      simp only [hp, this, cons rs hl]
       exact ⟨some rs, by simp, fun ms' e => by cases e; exact hl⟩
-  · exact ⟨a.checker, rfl, h.chk⟩
+  · exact ⟨a.checker, by rw [h.nofault], h.chk⟩
 
 theorem step_progress {locals : List LBlock} (hno : NoOverlap locals) (cfg : Cfg) (hasU : List Nat)
     {b : LBlock} (hb : b ∈ locals) {a : Acc} (h : ProgInv locals a) :
     ∃ a', stepBlock cfg locals hasU b a = .cont a' ∧ ProgInv locals a' := by
   unfold stepBlock
   split
-  · exact ⟨_, rfl, ⟨h.budget, h.errs, h.keys, h.chk⟩⟩
+  · exact ⟨_, rfl, ⟨h.nofault, h.errs, h.keys, h.chk⟩⟩
   · split
     · exact ⟨_, rfl, h⟩
     · split
       · exact ⟨_, rfl, h⟩
       · split
-        · rename_i hc; simp [h.budget, crashed] at hc
-        · split
-          · exact ⟨_, rfl, ⟨h.budget, h.errs, h.keys, h.chk⟩⟩
-          · obtain ⟨c', hc', hl⟩ := overlapCheck_passes hno cfg hb h
+        · rename_i hc; simp [h.nofault, fault_none_hit] at hc
+        · simp only [h.nofault, fault_none_pass]
+          split
+          · exact ⟨_, rfl, ⟨rfl, h.errs, h.keys, h.chk⟩⟩
+          · have h1 : ProgInv locals { a with fault := Fault.none } := ⟨rfl, h.errs, h.keys, h.chk⟩
+            obtain ⟨c', hc', hl⟩ := overlapCheck_passes hno cfg hb h1
             simp only [hc']
-            have hk := keysLocal_upload hb a.budget a.bkt h.keys
-            unfold doUpload
-            simp only [h.budget, (exec_none _ _).2.2, if_true]
-            refine ⟨_, rfl, ⟨by simp [spend], h.errs, ?_, hl⟩⟩
-            simpa [h.budget] using hk
+            obtain ⟨a', e1, e2, e3, e4, e5⟩ := doUpload_nofault cfg b { a with fault := Fault.none } c'
+            refine ⟨a', e1, ⟨e2, by rw [e3]; exact h.errs, ?_, by rw [e5]; exact hl⟩⟩
+            rw [e4]
+            exact keysLocal_upload hb Fault.none a.bkt h.keys
 
 theorem loop_progress {locals : List LBlock} (hno : NoOverlap locals) (cfg : Cfg) (hasU : List Nat) :
     ∀ (bs : List LBlock) (a : Acc), (∀ b ∈ bs, b ∈ locals) → ProgInv locals a →
@@ -409,16 +410,16 @@ theorem loop_progress {locals : List LBlock} (hno : NoOverlap locals) (cfg : Cfg
 /-- Full-strength progress statement (every configuration, overlap check included). -/
 def C35_progress_full : Prop :=
   ∀ (cfg : Cfg) (locals : List LBlock), NoOverlap locals →
-    ∀ st, History cfg locals st → (sync cfg locals none st).ok = true
+    ∀ st, History cfg locals st → (sync cfg locals Fault.none st).ok = true
 
 /-- **C35 (progress, every configuration)**: if no two local blocks overlap in time, then after
-    ANY history of crashed Syncs and lost shipper files a crash-free Sync returns nil (and so,
+    ANY history of crashed or transiently failed Syncs and lost shipper files a fault-free Sync returns nil (and so,
     by `C35_complete`, leaves every eligible block recorded and complete).  This is the theorem
     that was false before the repair of the overlap checker (`C35_wedge_before_repair`). -/
 theorem C35_progress_all : C35_progress_full := by
   intro cfg locals hno st hist
   have hk := history_keys hist
-  obtain ⟨a, h1, p⟩ := loop_progress hno cfg (st.file.getD []) locals ⟨none, st.bkt, [], none, 0, []⟩
+  obtain ⟨a, h1, p⟩ := loop_progress hno cfg (st.file.getD []) locals ⟨Fault.none, st.bkt, [], none, 0, []⟩
     (fun _ hb => hb) ⟨rfl, rfl, hk, by intro ms h; cases h⟩
   unfold sync
   simp only [h1]
@@ -432,10 +433,10 @@ theorem C35_progress_all : C35_progress_full := by
     block was never shipped.  With the repair the directory is skipped. -/
 theorem C35_wedge_before_repair :
     let b : LBlock := ⟨14, 18000, 23000, 2, 19, ⟨[("chunks/000001", 72), ("chunks/000002", 99)], 298⟩⟩
-    let s := (sync ⟨true, false⟩ [b] (some 1) ⟨[], none⟩).st
+    let s := (sync ⟨true, false⟩ [b] ⟨some 1, none⟩ ⟨[], none⟩).st
     s.bkt ≠ [] ∧ s.file = none ∧
     checkerSyncWith false [b] s.bkt = none ∧ checkerSyncWith true [b] s.bkt = some [] ∧
-    (sync ⟨true, false⟩ [b] none s).ok = true := by decide
+    (sync ⟨true, false⟩ [b] Fault.none s).ok = true := by decide
 
 -- ---------------------------------------------------------------- regenerated facts
 
@@ -464,9 +465,15 @@ example : LocalsOK exLocals := by
 
 -- first Sync crashes after 2 of the 3 calls of block 1: nothing recorded, block 1 invisible;
 -- the restart uploads both eligible blocks (block 3 is empty) and records them
-example : (sync ⟨true, true⟩ exLocals (some 2) ⟨[], none⟩).ok = false := by decide
-example : (sync ⟨true, true⟩ exLocals (some 2) ⟨[], none⟩).st.file = none := by decide
-example : (sync ⟨true, true⟩ exLocals none (sync ⟨true, true⟩ exLocals (some 2) ⟨[], none⟩).st).st.file = some [1, 2] := by decide
-example : (sync ⟨true, true⟩ exLocals none (sync ⟨true, true⟩ exLocals (some 2) ⟨[], none⟩).st).ok = true := by decide
+example : (sync ⟨true, true⟩ exLocals ⟨some 2, none⟩ ⟨[], none⟩).ok = false := by decide
+example : (sync ⟨true, true⟩ exLocals ⟨some 2, none⟩ ⟨[], none⟩).st.file = none := by decide
+example : (sync ⟨true, true⟩ exLocals Fault.none (sync ⟨true, true⟩ exLocals ⟨some 2, none⟩ ⟨[], none⟩).st).st.file = some [1, 2] := by decide
+example : (sync ⟨true, true⟩ exLocals Fault.none (sync ⟨true, true⟩ exLocals ⟨some 2, none⟩ ⟨[], none⟩).st).ok = true := by decide
+
+-- a transient failure of the 2nd bucket call (the first chunk upload of block 1) with out-of-order uploads allowed:
+-- the Sync goes on, ships block 2, WRITES the file without block 1 and reports an error; block 1 stays invisible
+example : (sync ⟨true, true⟩ exLocals ⟨none, some 1⟩ ⟨[], none⟩).ok = false := by decide
+example : (sync ⟨true, true⟩ exLocals ⟨none, some 1⟩ ⟨[], none⟩).st.file = some [2] := by decide
+example : get (sync ⟨true, true⟩ exLocals ⟨none, some 1⟩ ⟨[], none⟩).st.bkt (1, metaName) = none := by decide
 
 end Thanos.Shipper
